@@ -9,164 +9,84 @@ HERE = Path(__file__).resolve().parent.parent
 CHECKS = {
  'C06': ('exploration',
          'complete enumeration of generated programs; Python-family code executed, foreign code decided by strict template parsers + reference interpreters with own token tables; directory snapshots',
-         'All 13 types x 2 byte orders x 9 shapes x 12 languages x 3 path modes are generated from real arrays of pairwise '
-         'distinct values. numpy/numpymemmap/python/darr snippets are executed with the working directory the path mode '
-         'implies and compared bitwise; R/Matlab/Scilab/Julia/IDL/Mathematica/Maple programs must match a strict template '
-         '(else malformed) and are evaluated by a reference interpreter written from the languages\' documentation: the '
-         'result must be the stored array (row-major) or its transpose (column-major) with the same element type. Offer '
-         'table and readcodelanguages are compared with an own transcription of docs/readcode.rst; snapshots show that '
-         'running code changes no file, also on empty arrays.',
+         "All 13 types x 2 byte orders x 9 shapes x 12 languages x 3 path modes are generated from real arrays of pairwise distinct values. numpy/numpymemmap/python/darr snippets are executed with the working directory the path mode implies and compared bitwise; R/Matlab/Scilab/Julia/IDL/Mathematica/Maple programs must match a strict template (else malformed) and are evaluated by a reference interpreter written from the languages' documentation: the result must be the stored array (row-major) or its transpose (column-major) with the same element type. Offer table and readcodelanguages are compared with an own transcription of docs/readcode.rst; snapshots show that running code changes no file, also on empty arrays. Half of the cases run after a ragged array was made in the same process (process history); a no-README stage executes the python-family code on a directory whose README.txt was removed.",
          'No foreign interpreter exists in the sandbox: the reference semantics are our transcription (DESIGN Appendix A) - a misunderstanding on our side is the residual risk.'),
  'C07': ('exploration',
-         'enumeration of ragged programs; per-language accessor template parsed and evaluated for every k under the language\'s indexing rules; darr/numpymemmap executed',
-         'For ragged arrays over value type x index type x byte order x atom rank 0-3 x subarray-length patterns (incl. empty '
-         'subarrays, 1/2/3/7 subarrays) each offered program is split into index-read block, values-read block (C06 '
-         'interpreters), accessor and example; the accessor is evaluated for every valid k with the language\'s index origin, '
-         'end inclusiveness and axis order and must return exactly subarray k (empty ones with the right dimensions); the '
-         'example must announce and bind the same existing subarray; offered iff values and index type are supported; '
-         'executed snippets must leave the directory byte-identical.',
-         'Reference semantics are our transcription; shapes compared after dropping singleton dimensions for column-major '
-         'languages; index-arithmetic overflow and the R 2^31 cut-off are not modelled.'),
+         "enumeration of ragged programs; per-language accessor template parsed and evaluated for every k under the language's indexing rules; darr/numpymemmap executed",
+         "For ragged arrays over value type x index type x byte order x atom rank 0-3 x subarray-length patterns (incl. empty subarrays, 1/2/3/7 subarrays) each offered program is split into index-read block, values-read block (C06 interpreters), accessor and example; the accessor is evaluated for every valid k with the language's index origin, end inclusiveness and axis order and must return exactly subarray k (empty ones with the right dimensions); the example must announce and bind the same existing subarray; offered iff values and index type are supported; executed snippets must leave the directory byte-identical.",
+         'Reference semantics are our transcription; shapes compared after dropping singleton dimensions for column-major languages; index-arithmetic overflow and the R 2^31 cut-off are not modelled.'),
  'C15': ('exploration',
          'NumPy cast reference + independent decoder for copies; post-copy mutation of one side with snapshot of the other; tar extraction compared byte-for-byte',
-         'Generated Array and RaggedArray sources (all types, both byte orders, empty first axis, no / only-empty subarrays) are '
-         'copied with every kind of dtype argument, chunk length, access mode and metadata; the copy must equal '
-         'src.astype(dtype) through returned handle, fresh handle and raw files, with identical metadata. One side is then '
-         'mutated (assign, append, metadata, truncate, delete) while a byte snapshot and re-read of the other side must not '
-         'change. Archives for xz/gz/bz2 are extracted with tarfile and compared byte-for-byte with the directory, '
-         're-opened, and the overwrite gate is exercised.',
+         'Generated Array and RaggedArray sources (all types, both byte orders, empty first axis, no / only-empty subarrays) are copied with every kind of dtype argument, chunk length, access mode and metadata; the copy must equal src.astype(dtype) through returned handle, fresh handle and raw files, with identical metadata. One side is then mutated (assign, append, metadata, truncate, delete) while a byte snapshot and re-read of the other side must not change. Archives for xz/gz/bz2 are extracted with tarfile and compared byte-for-byte with the directory, re-opened, and the overwrite gate is exercised. Also: copies (Array and RaggedArray) and iter_arrays through a stale handle, chunk lengths given as narrow NumPy scalars, the access mode of ragged copies, and archives of dot-named directories holding dot-named user files.',
          'Platform-defined casts are not requested; the index type of a ragged copy is not judged.'),
  'C17': ('fault_enumeration',
          'sys.monitoring LINE-event crash-point recorder (directory snapshot between every two executed Darr lines) + synthesised torn writes; offline check of every materialised state',
-         'For each scenario (append, iterappend, iterappend with failing iterable / bad chunk, truncate, four metadata changes) '
-         'on 1-D/2-D Arrays and RaggedArrays from empty and non-empty starts, a LINE-event monitor restricted to Darr code '
-         'snapshots the directory between every two executed source lines; every distinct state, and torn versions of every '
-         'file that changes between consecutive states, is materialised and opened: an open that succeeds must show the state '
-         'before, after, or original + a whole number of chunks/subarrays, and legitimate metadata.',
+         'For each scenario (append, iterappend, iterappend with failing iterable / bad chunk, truncate, four metadata changes) on 1-D/2-D Arrays and RaggedArrays from empty and non-empty starts, a LINE-event monitor restricted to Darr code snapshots the directory between every two executed source lines; every distinct state, and torn versions of every file that changes between consecutive states, is materialised and opened: an open that succeeds must show the state before, after, or original + a whole number of chunks/subarrays, and legitimate metadata. Every state is opened in mode r and, on a second copy, in mode r+; the appended iterable may itself be a Darr object.',
          'Crash granularity is Darr source lines plus the listed torn variants; cross-file write reordering by the OS (power loss) is outside the property.'),
  'C04': ('exploration',
          'history + executable list-of-ndarrays model; bounded-exhaustive op sequences plus long random histories',
-         'Operation sequences over append / iterappend / truncate / mode change / reopen (plus copy, overwrite re-creation, '
-         'rejected appends in the random part) run on real RaggedArrays from asraggedarray and create_raggedarray starts '
-         'across atoms, 13 value types, both byte orders and the 7 index types; after each step len, narrays, atom, dtype, '
-         'size, every ra[k] incl. both out-of-range neighbours, non-integer indices, iter_arrays on a (start,end,step) grid '
-         'and the stored index type are compared with a list-of-arrays model on the live and on a fresh handle.',
+         'Operation sequences over append / iterappend / truncate / mode change / reopen (plus copy, overwrite re-creation, rejected appends in the random part) run on real RaggedArrays from asraggedarray and create_raggedarray starts across atoms, 13 value types, both byte orders and the 7 index types; after each step len, narrays, atom, dtype, size, every ra[k] incl. both out-of-range neighbours, non-integer indices, iter_arrays on a (start,end,step) grid and the stored index type are compared with a list-of-arrays model on the live and on a fresh handle. Also: appends inside one open_arrays() context with reads inside it, items of opposite byte order, a RaggedArray as the iterable, a forty-subarray start indexed with narrow NumPy integer scalars, and stale-handle / held-context histories (array changed by path, second handle or re-creation behind a long-lived handle).',
          'Only valid appends are judged here (failing ones belong to C10); index types large enough for the values length.'),
  'C05': ('exploration',
          'independent structural decoder (no Darr code) evaluated after every step of ragged histories',
-         'After every step of the ragged history workload a decoder that shares no code with Darr reads values/, indices/ and '
-         'the three JSON descriptors and checks the structural invariant (well-formed sub-arrays, (N,)+atom, (n,2) integer '
-         'indices, 0-based contiguous non-decreasing rows ending at N, consistent top-level len/size/atom/numtype/darrobject) '
-         'and that subarray k cut from the raw files equals ra[k]; also after calls that should have been rejected.',
+         'After every step of the ragged history workload a decoder that shares no code with Darr reads values/, indices/ and the three JSON descriptors and checks the structural invariant (well-formed sub-arrays, (N,)+atom, (n,2) integer indices, 0-based contiguous non-decreasing rows ending at N, consistent top-level len/size/atom/numtype/darrobject) and that subarray k cut from the raw files equals ra[k]; also after calls that should have been rejected. Also after every step of stale-handle and held-context ragged histories (incl. same-byte-size re-creation behind the handle).',
          'Trusts vlib/decoder.py; orphaned values with n = 0 are an observation, not a violation.'),
  'C08': ('exploration',
          'Readme monitor (regeneration from a fresh handle + independent parse vs independent decode) after every step of Array and ragged histories',
-         'After every step of Array histories (incl. metadata creation/deletion, overwrite re-creation) and ragged histories '
-         '(incl. growth ladders through 5-9 subarrays by append and iterappend, copy) README.txt of the array - and of a '
-         'ragged array and both its sub-arrays - must equal what Darr generates from a freshly opened handle, its '
-         'independently parsed statements must agree with the independent decoder, it must contain every current readcode() '
-         'snippet, and mention metadata.json iff metadata exist.',
-         'Regeneration uses Darr\'s own readcodetxt on a fresh handle (staleness oracle); the independent parse covers format statements only.'),
+         'After every step of Array histories (incl. metadata creation/deletion, overwrite re-creation) and ragged histories (incl. growth ladders through 5-9 subarrays by append and iterappend, copy) README.txt of the array - and of a ragged array and both its sub-arrays - must equal what Darr generates from a freshly opened handle, its independently parsed statements must agree with the independent decoder, it must contain every current readcode() snippet, and mention metadata.json iff metadata exist. Also stale-handle histories with metadata changes through both handles and sequences that return the array to exactly the state the long-lived handle documented last.',
+         "Regeneration uses Darr's own readcodetxt on a fresh handle (staleness oracle); the independent parse covers format statements only."),
  'C10': ('fault_enumeration',
          'enumerated fault positions/kinds incl. index overflow and kernel-enforced write failures on either file (forked child); post-failure oracle = raised + open + structural decode + subarrays',
-         'Every failure position for every kind (iterable raises, wrong atom, wrong rank, unconvertible item, index overflow '
-         'at the 127/255/32767 boundary for small index types, RLIMIT_FSIZE write failure on the values file and on the '
-         'indices file at offsets around every item boundary) through append and iterappend; afterwards the call must have '
-         'raised, RaggedArray(path) must open, the independent structural decoder must accept the directory and the '
-         'subarrays must be the original ones followed by those completely appended.',
+         'Every failure position for every kind (iterable raises, wrong atom, wrong rank, unconvertible item, index overflow at the 127/255/32767 boundary for small index types, RLIMIT_FSIZE write failure on the values file and on the indices file at offsets around every item boundary) through append and iterappend; afterwards the call must have raised, RaggedArray(path) must open, the independent structural decoder must accept the directory and the subarrays must be the original ones followed by those completely appended. The exception class raised by a failing iterable rotates; one overflow case uses a relative-path handle whose producer has changed the working directory.',
          'RLIMIT_FSIZE limits all files; the file meant to fail is made larger than all others incl. the 8 kB README.'),
  'C09': ('fault_enumeration',
          'enumerated fault positions/kinds incl. kernel-enforced write failure (RLIMIT_FSIZE in a forked child); post-failure oracle = raised + fresh open + independent decode + contents',
-         'Every failure position 0..n for every failure kind (iterable raises, wrong trailing shape, wrong rank, unconvertible '
-         'element, complex into real, integer too large, 0-d chunk) from empty and non-empty 1-D..3-D starts through append '
-         'and iterappend; real write failures provoked by lowering RLIMIT_FSIZE in a forked child to every offset around '
-         'every chunk boundary (-1/0/+1 byte, mid element, mid row, one item in, mid chunk) for stdio-buffered, medium and '
-         'large chunks. After the failure: the call must have raised, darr.Array(path) must open, the independent decoder '
-         'must accept the files, contents must equal original + completely appended chunks, live handle = fresh handle.',
-         'RLIMIT_FSIZE limits all files of the process; data files are kept larger than README/JSON, and for empty starts '
-         'only offsets above the README size are used (stated in DESIGN).'),
+         "Every failure position 0..n for every failure kind (iterable raises, wrong trailing shape, wrong rank, unconvertible element, complex into real, integer too large, 0-d chunk) from empty and non-empty 1-D..3-D starts through append and iterappend; real write failures provoked by lowering RLIMIT_FSIZE in a forked child to every offset around every chunk boundary (-1/0/+1 byte, mid element, mid row, one item in, mid chunk) for stdio-buffered, medium and large chunks. After the failure: the call must have raised, darr.Array(path) must open, the independent decoder must accept the files, contents must equal original + completely appended chunks, live handle = fresh handle. The exception class raised by a failing iterable rotates (incl. Darr's own AppendDataError).",
+         'RLIMIT_FSIZE limits all files of the process; data files are kept larger than README/JSON, and for empty starts only offsets above the README size are used (stated in DESIGN).'),
  'C12': ('exploration',
          'NumPy reference model + ownership inspection + /proc fd/map census after every access + forked durability children',
-         'Generated sequences of reads and assignments with index expressions composed from an enumerated pool (basic, '
-         'advanced, malformed) run on real arrays of rank 1-4, outside and inside open_array(); each result is compared with '
-         'the NumPy reference (value, shape, dtype, error class), inspected for detachment from the memory map, and after '
-         'every access the process is searched for descriptors or mappings of the array. Results kept across overwrite / '
-         'truncate / delete / re-creation of a 2.4 MB array are re-read in a forked child whose exit status is observed.',
+         "Generated sequences of reads and assignments with index expressions composed from an enumerated pool (basic, advanced, malformed) run on real arrays of rank 1-4, outside and inside open_array(); each result is compared with the NumPy reference (value, shape, dtype, error class), inspected for detachment from the memory map, and after every access the process is searched for descriptors or mappings of the array. Results kept across overwrite / truncate / delete / re-creation of a 2.4 MB array are re-read in a forked child whose exit status is observed. Also: failed-open events (directory renamed away and back), a switch to r+ inside the open context of a read-only handle (an accepted write must be durable), and stale-handle sequences incl. refused calls inside the handle's context, in forked children with the fd/map census.",
          'Scalar results are compared as 0-d arrays; error classes up to subclass relation.'),
  'C19': ('exploration',
          'bounded-exhaustive schedule enumeration, one forked child per schedule; wait status + value model + fd/map census',
-         'Every well-formed interleaving up to a length bound of generator starts/advances/closes, context entries/exits, '
-         'element reads and writes on one Array object (2-3 generators, nested contexts), completed by every order of '
-         'finishing the survivors, runs in its own forked child on a 4.8 MB array: death by signal, a chunk or element '
-         'differing from the model at that moment, a lost write, or an fd/mapping left open at the end is a violation.',
+         'Every well-formed interleaving up to a length bound of generator starts/advances/closes, context entries/exits, element reads and writes on one Array object (2-3 generators, nested contexts), completed by every order of finishing the survivors, runs in its own forked child on a 4.8 MB array: death by signal, a chunk or element differing from the model at that moment, a lost write, or an fd/mapping left open at the end is a violation. Plus look-ahead cases: a generator of small chunks (1 to 100 000 rows) with element writes 0 to 400 000 rows ahead of it after every advance.',
          'Interleavings are single-threaded by construction; multi-threaded use of one Array is not a stated property.'),
  'C11': ('exploration',
          'directory-snapshot monitor over the complete entry-point x origin-of-mode x state matrix',
-         'Every mutating entry point of Array and RaggedArray is called through a handle whose mode r was obtained in each '
-         'of five ways, in each array state (empty first axis, non-empty, ragged without subarrays / with only empty '
-         'subarrays, with and without metadata); the call must raise and a recursive byte snapshot of the directory must be '
-         'identical; after accessmode = r+ the same call must succeed where valid and show its effect. The matrix (880 '
-         'cells) is enumerated completely in both tiers.',
+         "Every mutating entry point of Array and RaggedArray is called through a handle whose mode r was obtained in each of five ways, in each array state (empty first axis, non-empty, ragged without subarrays / with only empty subarrays, with and without metadata); the call must raise and a recursive byte snapshot of the directory must be identical; after accessmode = r+ the same call must succeed where valid and show its effect. The matrix (880 cells) is enumerated completely in both tiers. Origins of mode r also include: assigned while the handle's own r+ map is open (context, suspended generator), an explicit r+ context beside a live read-only generator, and the handle returned by copy().",
          'Any exception class counts as "raises"; explicit open_array(accessmode="r+") overrides are out of the matrix.'),
  'C13': ('exploration',
          'history + executable dict model (JSON round trip); bounded-exhaustive op sequences plus random ones',
-         'All sequences up to length 3/4 over 15 metadata operations from six start states on Array and RaggedArray, with '
-         'values rotating through 24 kinds (NaN, inf, non-ASCII, control characters, nested, NumPy scalars/arrays, tuples, '
-         'huge ints); after each step every read accessor of the live and of a fresh handle is compared with the JSON '
-         'round trip of a model dict, metadata.json must exist iff the model is non-empty, failing calls must raise the '
-         'stated class and leave the file untouched.',
+         'All sequences up to length 3/4 over 15 metadata operations from six start states on Array and RaggedArray, with values rotating through 24 kinds (NaN, inf, non-ASCII, control characters, nested, NumPy scalars/arrays, tuples, huge ints); after each step every read accessor of the live and of a fresh handle is compared with the JSON round trip of a model dict, metadata.json must exist iff the model is non-empty, failing calls must raise the stated class and leave the file untouched. A quarter of the histories read the live handle in mode r; update() is also called with a one-shot iterable of pairs.',
          'Own JSON encoder is the reference for NumPy conversions; bytes and np.bool_ values are not judged.'),
  'C16': ('exploration',
          'directory-snapshot monitor (target, parent, symlink targets) over the complete delete and create matrices',
-         'delete_array/delete_raggedarray are run against arrays seeded with each kind of foreign content at each location '
-         'and through each call form, and against wrong-kind targets; each creating function is run with overwrite False/True '
-         'over each kind of previous occupant seeded with foreign entries. Byte snapshots of the target, its parent and the '
-         'content behind symlinks decide whether anything foreign was modified; exception classes are checked.',
+         'delete_array/delete_raggedarray are run against arrays seeded with each kind of foreign content at each location and through each call form, and against wrong-kind targets; each creating function is run with overwrite False/True over each kind of previous occupant seeded with foreign entries. Byte snapshots of the target, its parent and the content behind symlinks decide whether anything foreign was modified; exception classes are checked. Creators are also given iterables that yield nothing.',
          'For a symlink that itself carries a protected name only the link target must stay untouched.'),
  'C18': ('fault_enumeration',
          'enumerated single-field corruption catalogue applied to fresh copies; observe constructor/open/delete/truncate outcome + snapshot',
-         'Every single-field corruption of descriptor and data-file length (catalogue of ~130 per array kind, incl. every '
-         'byte amount from -all to +2 items) is applied to 1-D, N-D, empty and ragged sub-arrays and handed to each consumer; '
-         'a successful open, a by-path delete/truncate that does not raise TypeError, or any changed byte is a violation. '
-         'Enumerated completely; thorough repeats for all 26 type/byte-order bases.',
+         'Every single-field corruption of descriptor and data-file length (catalogue of ~130 per array kind, incl. every byte amount from -all to +2 items) is applied to 1-D, N-D, empty and ragged sub-arrays and handed to each consumer; a successful open, a by-path delete/truncate that does not raise TypeError, or any changed byte is a violation. Enumerated completely; thorough repeats for all 26 type/byte-order bases. The warm variant keeps a live r+ handle object on the directory while the by-path consumer runs.',
          'Consistent-but-different descriptors are valid descriptions and out of scope; [] as shape is not judged.'),
  'C20': ('exploration',
          'directory-snapshot monitor over the complete method x protected-name x spelling x mode matrix + generated user-file round trips',
-         'Each public DataDir writer/deleter/opener is called with every protected name of an Array and a RaggedArray '
-         '(including names below values/ and indices/) under nine spellings; the call must raise OSError and leave a '
-         'byte-identical snapshot. Generated JSON dicts and unicode texts are round-tripped through user files, the overwrite '
-         'gate and the exact-set semantics of delete_files are checked.',
+         'Each public DataDir writer/deleter/opener is called with every protected name of an Array and a RaggedArray (including names below values/ and indices/) under nine spellings; the call must raise OSError and leave a byte-identical snapshot. Generated JSON dicts and unicode texts are round-tripped through user files, the overwrite gate and the exact-set semantics of delete_files are checked. The handle may have been opened through a symlinked parent, a symlink to the array directory, <symlink>/../<name>, or own a symlinked constituent (link targets are part of the watched snapshot); half of the cases run after other arrays were created and deleted in the same process.',
          'Absolute-path and symlink-alias spellings are not judged; mode "rb" is not judged.'),
  'C01': ('exploration',
          'reference-model monitor (np.asarray/astype/np.full) + independent decoder over a generated structure grid',
-         'Generated creation calls over the product of type, byte order, memory layout, rank, input form, dtype argument, '
-         'chunk length, fill value/function and special bit patterns are executed against the real asarray/create_array; '
-         'the returned handle, a fresh handle and an independent decoder of the raw files must all equal the NumPy '
-         'reference bit for bit for every chunk length; unsupported element types must raise TypeError with nothing left '
-         'on disk. Sampled, not exhaustive: the grid is a product of ~10 dimensions.',
+         'Generated creation calls over the product of type, byte order, memory layout, rank, input form, dtype argument, chunk length, fill value/function and special bit patterns are executed against the real asarray/create_array; the returned handle, a fresh handle and an independent decoder of the raw files must all equal the NumPy reference bit for bit for every chunk length; unsupported element types must raise TypeError with nothing left on disk. Sampled, not exhaustive: the grid is a product of ~10 dimensions. Chunk lengths are also given as narrow NumPy scalars; fill functions include one that leaves the 32-bit range at index 3.',
          'NumPy conversion semantics are the reference; platform-defined casts are excluded from the generators.'),
  'C02': ('exploration',
          'independent format decoder (no Darr code) evaluated after every step of generated histories; struct.pack byte table',
-         'After every step of random histories (create/append/iterappend/assign/truncate/metadata/overwrite re-creation) a '
-         'decoder sharing no code with Darr reads the three files and must reconstruct exactly what live and fresh Darr '
-         'handles report; the 13x2 type/byte-order table is enumerated completely against struct.pack bytes through four '
-         'different writers.',
+         'After every step of random histories (create/append/iterappend/assign/truncate/metadata/overwrite re-creation) a decoder sharing no code with Darr reads the three files and must reconstruct exactly what live and fresh Darr handles report; the 13x2 type/byte-order table is enumerated completely against struct.pack bytes through four different writers. Since the fifth seed wave also stale-handle histories (vlib/hist_stale.py): the array is truncated by path, changed through a second handle or re-created behind a long-lived handle that is then read, assigned, appended to or truncated (also while it holds its own context open); decoder and fresh handle vs model after every step. One history in five addresses its array as <symlink>/../<name>; histories start from inputs of six memory layouts.',
          'Trusts vlib/decoder.py as transcription of the documented format and struct.pack as encoding reference.'),
  'C03': ('exploration',
          'history + executable NumPy model; bounded-exhaustive op sequences plus long random histories',
-         'All operation sequences up to length 3 (quick) / 4 (thorough) over an 18-op alphabet from five start shapes, plus '
-         'long random histories over 29 op kinds and all 26 type/byte-order combinations, run on the real Array; after '
-         'each step live handle, fresh handle and raw file are compared with a NumPy model, appended/truncated files are '
-         'checked to preserve the leading bytes, and rejected calls must raise and leave file and descriptor unchanged.',
+         'All operation sequences up to length 3 (quick) / 4 (thorough) over an 18-op alphabet from five start shapes, plus long random histories over 29 op kinds and all 26 type/byte-order combinations, run on the real Array; after each step live handle, fresh handle and raw file are compared with a NumPy model, appended/truncated files are checked to preserve the leading bytes, and rejected calls must raise and leave file and descriptor unchanged. Also: composites inside one open context (with reads inside it, truncation inside it, and a failing append in the middle), stale-handle and held-context histories, <symlink>/../<name> path spellings and six source layouts.',
          'NumPy concatenate/slicing/assignment semantics are the reference; ambiguous inputs (bool indices, NaN->int) excluded.'),
  'C14': ('exploration',
          'closed-form oracle over exhaustively enumerated parameter tuples + icontract postcondition on fit_frames',
-         'Every (n, chunklen, stepsize, start, end, remainder) tuple with n up to a bound is executed against the real '
-         'iterindices/iterchunks/fit_frames and compared with an independent closed form; every out-of-range tuple on a '
-         'grid must raise ValueError; fit_frames as called from inside Darr carries a postcondition. Exhaustive below the '
-         'bound, sampled above it.',
-         'Trusts the closed form of DESIGN Appendix B as the transcription of the statement; frame arithmetic assumed '
-         'independent of dtype (two dtypes, 1-D and 2-D exercised).'),
+         'Every (n, chunklen, stepsize, start, end, remainder) tuple with n up to a bound is executed against the real iterindices/iterchunks/fit_frames and compared with an independent closed form; every out-of-range tuple on a grid must raise ValueError; fit_frames as called from inside Darr carries a postcondition. Exhaustive below the bound, sampled above it. Also: arguments given as NumPy scalars of narrow types, and chunk iteration through a stale handle (array changed by other means, refused calls inside its context).',
+         'Trusts the closed form of DESIGN Appendix B as the transcription of the statement; frame arithmetic assumed independent of dtype (two dtypes, 1-D and 2-D exercised).'),
 }
 
 NOT_YET = {}
